@@ -3,6 +3,24 @@
 import json, subprocess
 
 BUILT = {
+ "C01": ("exploration", "runtime differential monitor: executable reference interpreter (DESIGN §4) evaluated on the tree the real parser returned vs eval() under probes, quarantine shadow heap and instruction budget",
+         "Every enumerated program up to a node budget and seeded type-directed random programs (6 profiles, injected faults) are executed by the real pipeline and by a definitional tree-walking interpreter; value, captured output and error kind must agree; documented example outputs are checked directly. Held on the programs run; unspecified behaviours (DESIGN 4.3) are skipped and counted.",
+         "trusts harness/src/refsem.rs as the definition (cross-checked each run against documented outputs)", "6.1"),
+ "C05": ("exploration", "worker-process supervisor as monitor: exit status / signal / stderr of workers, panics caught in-process, instruction budget, wall-clock watchdog with re-run in isolation; release + debug builds and the shipped binary",
+         "Directed boundary corpus, token soups, token edits, truncation at every char boundary and Unicode noise are evaluated in supervised worker processes; anything but a value, one of the five error kinds or budget exhaustion inside the VM loop is a violation. Held on the inputs tried.",
+         "a hang is decided by a generous watchdog and must repeat in isolation; SIGKILL is inconclusive", "6.5"),
+ "C07": ("exploration", "runtime round-trip monitor: print tree -> real parser -> compare trees, under random layouts; operator-pair space enumerated completely",
+         "All 11 336 binary-operator trees with at most three operators, assignment/op-assignment over all trees with at most two, postfix/prefix against every operator and else-if chains are printed with minimal parentheses and re-parsed by the real parser; random programs under random layouts. Held on the trees printed.",
+         "prefix-operator binding strength is undocumented and avoided by the printer", "6.7"),
+ "C08": ("exploration", "token-stream hook compared with generated token sequences; token-conservation monitor on every damaged text that parses; complete string-literal enumeration",
+         "Random token sequences over the whole vocabulary with every separator choice a maximal-munch model allows must be seen by the real lexer exactly as written; every damaged text that still parses must keep all its content tokens; all 4 681 string contents up to length 4 over an 8-character alphabet decode exactly. Held on the texts generated.",
+         "the adjacency model decides where no separator is needed (Appendix B)", "6.8"),
+ "C13": ("exploration", "runtime differential monitor: reference model with object identity vs eval(); (length, index) grid enumerated completely",
+         "Complete sweep of every index from -(len+2) to len+2 over arrays of length 0-6 and strings of 0-6 characters of 1- to 4-byte code points (read, write, re-read, lengte, through aliases), every value type as index and stored value, directed aliasing cases and random operation sequences observed through every alias. Held on the sequences run.",
+         "aliased string mutation is unspecified (4.3(7)) and skipped", "6.13"),
+ "C14": ("exploration", "runtime differential monitor: builtin table of the reference semantics + algebraic laws vs eval(); builtin x shape matrix complete",
+         "Every builtin on every value shape and with 0/2/3 arguments, print over a format x argument-count grid, round-trip and identity laws over the int lattice, random ints, floats and texts. Documented entries are compared exactly, undocumented ones for totality and result type. Held on the calls made.",
+         "entries under DESIGN 4.3(12,13) are only checked for totality", "6.14"),
  # id: (level, technique, level text, level note, design ref)
  "C06": ("exploration", "runtime differential monitor: exact big-integer / IEEE / code-point oracle over eval() of a op b; boundary lattice exhaustive, release and debug builds",
          "Every pair of a 355-value boundary lattice x 11 operators x 3 syntactic forms is executed on the real interpreter and compared with an exact oracle (complete enumeration), plus random 61-bit, float and string pairs and the 7x7 cross-type matrix; repeated on the debug-assertion/overflow-check build. Held on what was executed; the 2^122 pairs outside lattice+sample are not covered.",
